@@ -277,6 +277,8 @@ class ScriptPeer(object):
 
     def on_frame(self, frame):
         from rpyc.core import consts
+        if not isinstance(frame, l2.Frame):
+            return          # a finalizer of an abandoned connection saying goodbye natively: not part of any path
         kind, seq, args = frame.obj
         if kind == consts.MSG_REQUEST:
             handler, boxed = args
@@ -520,6 +522,126 @@ def ob_both_sides(run):
     return ob
 
 
+
+# ---------------------------------------------------------------------------
+def ob_serving_side(run, interp, max_ops):
+    """the side that serves (serve_all) while the transport fails at any operation -- receiving a request, sending a
+    reply (plain or exception), or never: afterwards it is closed, its hook ran once, what it lent is released"""
+    from rpyc.core.protocol import Connection
+    from rpyc.core import consts
+
+    def ob(o):
+        o.symbolic = ["index f of the failing transport operation: 0..%d or none (exhaustive)" % max_ops,
+                      "script of the peer: GETROOT (the reply lends the service), PING, a request that fails in its handler, then end-of-stream / silence until the fault"]
+        o.bounds = {"transport_operations": max_ops}
+        acc = Acc()
+
+        def harness(c):
+            l2.install_identity_codec(interp)
+            clk = l2.install_clock(interp)
+            f = c.choose(max_ops + 2, "fail_at")
+            fail_at = None if f == max_ops + 1 else f
+            chan = FaultyChannel(interp, clk, None, fail_at)
+            svc = CountingService()
+            conn = l2.make_conn(chan, {}, svc)
+            B = (consts.LABEL_TUPLE, ())
+            chan.inbox.append(l2.Frame((consts.MSG_REQUEST, 1, (consts.HANDLE_GETROOT, B))))
+            chan.inbox.append(l2.Frame((consts.MSG_REQUEST, 2, (consts.HANDLE_PING, (consts.LABEL_TUPLE, ((consts.LABEL_VALUE, "x"),))))))
+            chan.inbox.append(l2.Frame((consts.MSG_REQUEST, 3, (9999, B))))            # unknown handler: an exception reply
+            # once the script is exhausted the peer is gone: end-of-stream at the next poll
+            real_poll = chan.poll
+
+            def poll(timeout):
+                if not chan.inbox and not chan.dead:
+                    chan._tick("poll")
+                    chan.dead = True
+                    if chan.failed_in is None:
+                        chan.failed_in = "peer-gone"
+                    raise EOFError("connection closed by peer")
+                return real_poll(timeout)
+            chan.poll = poll
+            c.notes.update(conn=conn, svc=svc, chan=chan, fail_at=fail_at)
+            try:
+                interp.call(Connection.serve_all, (conn,))
+                return "returned"
+            except EOFError:
+                return "EOFError"
+
+        def on_path(r):
+            c = r.ctx
+            if r.outcome == "abort" or "conn" not in c.notes:
+                return
+            n = c.notes
+            conn, svc, chan = n["conn"], n["svc"], n["chan"]
+            acc.inc("failed_in:%s" % chan.failed_in)
+            bad = []
+            if r.outcome != "return":
+                bad.append("serve_all raised %s: %s" % (type(r.exc).__name__ if r.exc else r.outcome, r.exc))
+            else:
+                if conn.closed is not True:
+                    bad.append("the serving side is not closed")
+                if svc.disconnects != 1:
+                    bad.append("disconnect hook ran %d times" % svc.disconnects)
+                if conn._local_objects._dict:
+                    bad.append("%d lent object(s) not released" % len(conn._local_objects._dict))
+                if not chan.closed:
+                    bad.append("channel not closed")
+            if len(o.samples) < 6:
+                o.samples.append({"fail_at": n["fail_at"], "failed_in": chan.failed_in, "outcome": r.value if r.outcome == "return" else r.outcome, "frames_sent": len(chan.out)})
+            if bad and len(o.violations) < 3:
+                sig = "serving:%s" % chan.failed_in
+                if any(v["signature"] == sig for v in o.violations):
+                    return
+                run.replay(o, sig, "%s (serve_all; transport operation #%s fails: %s)" % ("; ".join(bad), n["fail_at"], chan.failed_in), REPLAY_HEAD + '''
+fail_at = %r
+class Chan(object):
+    def __init__(self):
+        B = (consts.LABEL_TUPLE, ())
+        self.inbox = [brine.dump((consts.MSG_REQUEST, 1, (consts.HANDLE_GETROOT, B))),
+                      brine.dump((consts.MSG_REQUEST, 2, (consts.HANDLE_PING, (consts.LABEL_TUPLE, ((consts.LABEL_VALUE, "x"),))))),
+                      brine.dump((consts.MSG_REQUEST, 3, (9999, B)))]
+        self.n = 0; self.dead = False; self.failed_in = None; self.closed = False; self.sent = []
+    def _tick(self, kind):
+        if self.dead: raise EOFError("closed")
+        if fail_at is not None and self.n == fail_at:
+            self.dead = True; self.failed_in = kind; raise EOFError("injected")
+        self.n += 1
+    def send(self, d): self._tick("send"); self.sent.append(bytes(d))
+    def poll(self, timeout):
+        self._tick("poll")
+        if not self.inbox:
+            self.dead = True; self.failed_in = self.failed_in or "peer-gone"; raise EOFError("connection closed by peer")
+        return True
+    def recv(self): self._tick("recv"); return self.inbox.pop(0)
+    def close(self): self.closed = True; self.dead = True
+svc = Svc(); ch = Chan()
+conn = Connection(svc, ch, {})
+try:
+    conn.serve_all(); out = "returned"
+except EOFError:
+    out = "EOFError"
+bad = []
+if not conn.closed: bad.append("the serving side is not closed")
+if svc.disconnects != 1: bad.append("disconnect hook ran %%d times" %% svc.disconnects)
+if conn._local_objects._dict: bad.append("%%d lent object(s) not released" %% len(conn._local_objects._dict))
+if not ch.closed: bad.append("channel not closed")
+print(out, ch.failed_in, bad)
+if bad:
+    print("REPRODUCED"); sys.exit(1)
+''' % (n["fail_at"],))
+            l2.retire(conn)
+
+        n_, incomplete = par_explore(run, o, harness, on_path, acc, split_depth=2)
+        o.paths = dict(acc.counts, total=n_)
+        if incomplete:
+            o.verdict = "inconclusive"
+            o.detail = incomplete
+        for k in ("failed_in:send", "failed_in:poll", "failed_in:recv", "failed_in:peer-gone"):
+            if not acc.counts.get(k):
+                raise core.HarnessError("reachability twin: %s never reached (%s)" % (k, acc.counts))
+    return ob
+
+
 def main():
     run = Run("C11", level="other")
     interp = Interp()
@@ -532,6 +654,8 @@ def main():
                    ob_close(run, interp))
     run.obligation("O2_fault_positions", "EOFError at every transport operation of three workloads: no hang, no invented value, closed + hook once when met while serving",
                    ob_faults(run, interp, 16 if thorough else 12))
+    run.obligation("O4_serving_side", "serve_all() with EOFError at every transport operation (receiving a request, sending a plain or exception reply, peer gone): closed, hook once, lent objects released",
+                   ob_serving_side(run, interp, 16 if thorough else 12))
     run.obligation("O3_both_sides", "both sides closing in either order / abrupt loss on two real connections", ob_both_sides(run))
     run.note_encoded(interp)
     sys.exit(run.finish())
